@@ -2,8 +2,10 @@ package c02
 
 import (
 	"fmt"
+	"math/big"
 	"testing"
 
+	"github.com/idena-network/idena-go/blockchain/fee"
 	"github.com/idena-network/idena-go/blockchain/types"
 	"github.com/idena-network/idena-go/core/state"
 	"pgregory.net/rapid"
@@ -44,12 +46,51 @@ func TestHonestProposalAcceptedLaterEpochs(t *testing.T) {
 
 func honestProposal(t *testing.T, only []types.TxType) { honestProposalOpt(t, only, 25, nil) }
 
+// Worlds that start on consensus version 9 and activate versions 10, 11 and 12 at drawn block boundaries (every running
+// node transforms its configuration in place, nodes restarted or created afterwards build theirs afresh), with rich
+// senders and payments carrying tens of kilobytes, so that blocks are filled up to the gas cap of the version in force:
+// proposals of nodes that lived through an activation and of nodes that did not must be accepted by both kinds.
+func TestHonestProposalAcrossUpgrades(t *testing.T) {
+	honestProposalWith(t, []types.TxType{types.SendTx, types.SendTx, types.SendTx, types.SendTx, types.SendTx, types.SendTx, types.SendTx, types.SendTx, types.SendTx, types.SendTx, types.OnlineStatusTx, types.OnlineStatusTx, types.DelegateTx, types.KillTx, types.BurnTx,
+		types.DeployContractTx, types.CallContractTx, types.ReplenishStakeTx, types.InviteTx}, 40, func(p *sim.Params) {
+		p.Profile = "v9"
+		p.CeremonyIn = 100000
+		for i := range p.States {
+			p.Balances[i] = new(big.Int).Lsh(big.NewInt(1), 80)
+			if i > 0 && p.States[i] == state.Undefined {
+				p.States[i] = state.Verified
+				p.Stakes[i] = sim.Dna(int64(5 + i))
+			}
+		}
+	}, func(opt *sim.Options) { opt.Upgrades, opt.FatTxs, opt.MaxTxPerStep = true, true, 16 })
+}
+
 func honestProposalOpt(t *testing.T, only []types.TxType, steps int, params func(*sim.Params)) {
+	honestProposalWith(t, only, steps, params, nil)
+}
+
+func honestProposalWith(t *testing.T, only []types.TxType, steps int, params func(*sim.Params), tune func(*sim.Options)) {
 	rapid.Check(t, func(t *rapid.T) {
 		nontrivialProposals := 0
 		opt := sim.Options{MinActors: 3, MaxActors: 10, Replicas: 2, MaxReplicas: 5, Steps: steps, MaxTxPerStep: 8, Zones: true, Restarts: true, OnlyTypes: only, Params: params}
+		if tune != nil {
+			tune(&opt)
+		}
 		opt.BeforeDeliver = func(h *sim.History, proposer *sim.Replica, blk *types.Block) bool {
 			evid.Eval()
+			if opt.Upgrades {
+				gas := 0
+				for _, tx := range blk.Body.Transactions {
+					gas += fee.CalculateGas(tx)
+				}
+				evid.Count(fmt.Sprintf("upgrade.block_at_version_%d", h.W.Version))
+				if gas > 1500000 {
+					evid.Count(fmt.Sprintf("upgrade.block_over_1500K_gas_at_version_%d", h.W.Version))
+				}
+				if gas > 3000000 {
+					evid.Count(fmt.Sprintf("upgrade.block_over_3000K_gas_at_version_%d", h.W.Version))
+				}
+			}
 			if proposer == nil {
 				evid.Count("round.empty")
 				return true
@@ -82,10 +123,10 @@ func honestProposalOpt(t *testing.T, only []types.TxType, steps int, params func
 					mix[sim.TxTypeNames[tx.Type]]++
 				}
 				period := sim.PeriodName(proposer.ReadState().State.ValidationPeriod())
-			if proposer.ReadState().State.Epoch() > 0 {
-				evid.Count("proposal.nontrivial_in_epoch_ge_1")
-				period += "@e" + fmt.Sprint(proposer.ReadState().State.Epoch())
-			}
+				if proposer.ReadState().State.Epoch() > 0 {
+					evid.Count("proposal.nontrivial_in_epoch_ge_1")
+					period += "@e" + fmt.Sprint(proposer.ReadState().State.Epoch())
+				}
 				d := fmt.Sprintf("%s|%s|%s|mix=%v|leftOut=%d", h.W.P.Profile, period, sim.FlagNames(blk.Header.Flags()), mix, leftOut)
 				evid.NonTrivial(d)
 				evid.Count("proposal.nontrivial")
